@@ -61,14 +61,22 @@ package ledger
 // during the very first creation of the databases; thread interleavings other than the two
 // gate policies (no E-SCHED here).
 //
-// MUTANTS (bin/mut, all DETECTED, see checks.d/C09.json):
+// MUTANTS (bin/mut ... --only, all DETECTED):
 //   M1 tracker.go commitRound: UpdateAccountsRound moved into a separate transaction after
-//      the trackers' writes;
-//   M2 blockqueue.go syncer: lastCommitted advanced / waiters woken before the Wdb commit;
+//      the trackers' writes (reopen fails / state ahead of the recorded round);
+//   M2 blockqueue.go syncer: lastCommitted advanced and waiters woken before the Wdb commit
+//      (C09:confirmed-block-lost at the put's commit.pre);
 //   M3 catchpointtracker.go createCatchpoint: unfinished-catchpoint record deleted before the
 //      file is recorded (crash leaves an unrecorded catchpoint file);
 //   M4 catchpointtracker.go commitRound: WritingFirstStageInfo flag not set (crash loses the
-//      first stage and with it the catchpoint label).
+//      first stage: orphan data file, catchpoint label of the uncrashed run never produced);
+//   M5 ledger.go notifyCommit: minToSave = r (blocks the trackers still need are forgotten;
+//      needs >= 3 blocks and the flush lag; shows in the "nocp" runs only).
+// The DESIGN/lead mutant "delete catchpoint files before the DB record is updated" is what
+// the production code already does (recordCatchpointFile removes the old file inside the
+// recording transaction, and GetCatchpointStream repairs a record whose file is gone); the
+// oracle therefore only demands disk ⊆ DB plus graceful handling of DB-only records, and M3/M4
+// are the property-breaking variants in that area.
 
 import (
 	"archive/tar"
@@ -337,7 +345,7 @@ func (rc *c09Rec) kind(h *sql.DB) string {
 	return ""
 }
 
-const c09GateTimeout = 60 * time.Second
+const c09GateTimeout = 180 * time.Second // watchdog only (harness failure, never a verdict)
 
 func (rc *c09Rec) gate(kind string) {
 	switch {
@@ -796,7 +804,7 @@ func c09Sweep(l *Ledger, h *c09History, queries *int64) *c09Fail {
 // catchpoint files vs database
 
 type c09CpStats struct {
-	files, data, recorded, missing int
+	files, data, recorded, missing, orphanData int
 }
 
 func c09ReadCatchpointHeader(rd io.Reader) (hdr CatchpointFileHeader, members int, size int64, err error) {
@@ -906,6 +914,9 @@ func c09CheckCatchpointFiles(l *Ledger, ledgerDir string, refLabels map[basics.R
 		_, exists, err := crw.SelectCatchpointFirstStageInfo(ctx, rnd)
 		if err != nil {
 			return c09Failf("C09:catchpoint-db", "SelectCatchpointFirstStageInfo(%d): %v", rnd, err)
+		}
+		if !exists && !strictData {
+			st.orphanData++ // runs with an injected commit failure: noted in the evidence only
 		}
 		if !exists && strictData {
 			return c09Failf("C09:catchpoint-data-unrecorded", "first-stage data file of round %d is on disk but the database has no first-stage record of it (data files on disk %v)", rnd, datas)
@@ -1258,6 +1269,7 @@ func TestVerif_C09(t *testing.T) {
 			stats.cp.data += st.cp.data
 			stats.cp.recorded += st.cp.recorded
 			stats.cp.missing += st.cp.missing
+			stats.cp.orphanData += st.cp.orphanData
 			statsMu.Unlock()
 			if f != nil {
 				report(f, c09Replay{Spec: spec, K: p.K})
@@ -1335,6 +1347,7 @@ faults:
 	run.Set("catchpoint_data_files_seen", int64(stats.cp.data))
 	run.Set("catchpoint_records_checked", int64(stats.cp.recorded))
 	run.Set("catchpoint_records_with_file_already_deleted", int64(stats.cp.missing))
+	run.Set("first_stage_data_files_without_record_after_injected_failure", int64(stats.cp.orphanData))
 	var pc []string
 	for i, res := range baseRes {
 		if res != nil {
